@@ -49,7 +49,14 @@ def run_suite(prop, mod, rep):
             t0 = time.time()
             rec = {"id": m["id"], "what": m["what"], "neutral": bool(m.get("neutral"))}
             _copy_repo(scratch)
-            why = apply_edits(scratch, m["edits"])
+            why = None
+            if m.get("base"):
+                # start from a stored behaviour-preserving refactoring of /repo (seeded/neutral-*/patch.diff)
+                pf = os.path.join(core.VERIF, "seeded", m["base"], "patch.diff")
+                pr = subprocess.run(["patch", "-p1", "-s", "-i", pf], cwd=scratch, stdout=subprocess.PIPE, stderr=subprocess.STDOUT, text=True)
+                if pr.returncode != 0:
+                    why = f"base patch {m['base']} does not apply to the current tree"
+            why = why or apply_edits(scratch, m["edits"])
             if why:
                 rec["result"] = "not-applicable"
                 rec["detail"] = why
